@@ -1605,3 +1605,58 @@ def w16(facts, tier):
                  f"{g['id']}: " + ("; ".join(sorted(set(bad))[:2]) + (": the stored count and the stored elements disagree for a container whose "
                                    "storage is split (a wrapped VecDeque)" if any("part of" in b_ or "elements of" in b_ for b_ in bad) else "") if bad else
                                    f"count and elements are those of `{'.'.join(sorted(cps)[0])}`"))
+
+
+# ---------------------------------------------------------------------------------------------
+# K9 (C14): the unauthenticated chunk length is rejected when out of range, never adjusted
+
+@rule("K9", ["C14"], floor=1, doc="CryptoReader::read: the 8-byte chunk length is not covered by the AEAD tag, so every stored value must either be the "
+      "true length or be rejected: between the read of the length and its use for framing there is only a cast and a reject-guard - "
+      "no min / clamp / mask / modulo that would map several stored values to the same accepted length")
+def k9(facts, tier):
+    f = next((g for g in facts.fns.values() if g["crate"] == "savefile" and "CryptoReader" in g["id"] and g["id"].endswith("::read")
+              and (g.get("impl") or {}).get("trait", "").endswith("Read")), None)
+    if f is None:
+        return
+    n = 0
+    for x in walk(f["body"]):
+        if x.get("k") == "LetS" and x["pat"].get("k") == "Bind" and x.get("init") is not None:
+            src = next((y for y in walk(x["init"]) if y.get("k") == "Call" and (callee(y) or "").endswith(("ByteOrder::read_u64", "u64::from_le_bytes",
+                                                                                                              "ReadBytesExt::read_u64"))), None)
+            if src is None:
+                continue
+            n += 1
+            ops = []
+            e = x["init"]
+            while True:
+                e = peel_block(peel(e))
+                if e is src:
+                    break
+                if e.get("k") in ("Cast", "Try"):
+                    e = e["e"]
+                    continue
+                if e.get("k") == "Call":
+                    ops.append((callee(e) or "?").rsplit("::", 1)[-1])
+                    e = e["args"][0] if e.get("args") else src
+                    continue
+                if e.get("k") == "Bin":
+                    ops.append(e["op"])
+                    e = e["l"]
+                    continue
+                ops.append(e.get("k"))
+                break
+            # a reject guard on the variable follows
+            var = x["pat"]["v"]
+            guard = False
+            for y in walk(f["body"]):
+                if y.get("k") == "If" and any(z.get("k") == "Var" and z["v"] == var for z in walk(y["c"])) and \
+                        any(z.get("k") == "Return" for z in walk(y["t"])):
+                    guard = True
+            ok = not ops and guard
+            yield ob(["C14"], "K9", "chunk-length-identity", "pass" if ok else "violation", where(f, x),
+                     f"{f['id']}: the stored chunk length is used as read (cast only) and rejected when out of range" if ok else
+                     f"{f['id']}: the stored chunk length " + (f"passes through `{ops[0]}` before it is used" if ops else "is not rejected when out of range") +
+                     ": several stored values lead to the same accepted framing, so a file whose (unauthenticated) length field was modified "
+                     "still decrypts and loads")
+    if n == 0:
+        yield ob(["C14"], "K9", "chunk-length-identity", "undecided", where(f), "read of the chunk length not found")
